@@ -328,6 +328,15 @@ def task_histories(tier, seed, arg):
 
 
 # ----------------------------------------------------------------------------------------------
+def task_replay_registration(tier, seed, arg):
+    """replay of the registration lemma: the step obligations of the group named by the failed obligation (every first touch
+    through every class), on the real code"""
+    import re
+    m = re.search(r"group (\w+):", (arg or {}).get("obligation", "") or "")
+    g = L.NAME_GROUP.get(m.group(1)) if m else None
+    return task_steps(tier, seed, {"groups": [g]} if g else None)
+
+
 def task_replay(tier, seed, arg):
     t0 = time.time()
     arg = arg or {}
